@@ -26,7 +26,20 @@ constexpr nterm<A> NA("A"); constexpr nterm<B> NB("B"); constexpr nterm<C9> N9("
 using ul = unsigned long;
 constexpr nterm<ul> LIST("list"); constexpr nterm<ul> ITEM("item");
 
+// symbols whose names / ids are in prefix relation ("*" and "**", "e" and "ex"), declared shorter first and longer first: every functor
+// runs for exactly the nodes of the derivation in the grammar as written
+constexpr string_term op_mul("*"); constexpr string_term op_pow("**"); constexpr string_term op_add("+");
+constexpr nterm<int> ex("ex"), e("e"), exx("exx");
+static int ipow(int b, int x) { int r = 1; while (x-- > 0) r *= b; return r; }
 int main() {
+  { int calls_mul = 0, calls_pow = 0, calls_add = 0;
+    auto p = parser(ex, terms(op_add, op_mul, op_pow, number), nterms(ex, e, exx), rules(
+      ex(ex, op_add, e) >= [&](int a, skip, int b) { ++calls_add; return a + b; }, ex(e),
+      e(e, op_mul, exx) >= [&](int a, skip, int b) { ++calls_mul; return a * b; }, e(exx),
+      exx(exx, op_pow, number) >= [&](int a, skip, const auto& sv) { ++calls_pow; return ipow(a, to_int(sv)); }, exx(number) >= [](const auto& sv) { return to_int(sv); }));
+    struct { const char* in; int want, mul, pow, add; } cs[] = { {"2 * 3", 6, 1, 0, 0}, {"2 ** 3", 8, 0, 1, 0}, {"1 + 2 * 3 * 2", 13, 2, 0, 1}, {"2 ** 3 * 2", 16, 1, 1, 0}, {"2 * 3 ** 2 + 1", 19, 1, 1, 1} };
+    for (auto& c : cs) { calls_mul = calls_pow = calls_add = 0; auto r = p.parse(string_buffer(c.in));
+      CHECK(r && *r == c.want && calls_mul == c.mul && calls_pow == c.pow && calls_add == c.add, "prefix-related symbol names: '" << c.in << "' gives " << (r ? std::to_string(*r) : "none") << " with " << calls_mul << " '*', " << calls_pow << " '**', " << calls_add << " '+' reductions (expected " << c.want << " with " << c.mul << "/" << c.pow << "/" << c.add << ")"); } }
   { auto p = parser(PR, terms(number), nterms(PR, NUM), rules(PR(NUM, NUM), NUM(number) >= [](const auto& sv) { return to_int(sv); }));
     auto r = p.parse(string_buffer("3 7")); CHECK(r && r->how == "two-ints" && r->a == 3 && r->b == 7, "rule without functor must construct L(r1, r2); got " << (r ? r->how : "none")); }
   { auto p = parser(ROW, terms(number), nterms(ROW, NUM), rules(ROW(NUM, NUM), NUM(number) >= [](const auto& sv) { return to_int(sv); }));
